@@ -1,0 +1,25 @@
+"""Verification hooks (add-only instrumentation).
+
+Everything here is inert unless the environment variable
+SIMPLE_DDL_PARSER_VERIF=1 is set when the package is imported *and* a harness
+installs a sink / scheduler.  The library never reads anything back from it.
+"""
+import os
+
+ENABLED = os.environ.get("SIMPLE_DDL_PARSER_VERIF") == "1"
+
+# callable(dict) -> None, installed by a verification harness
+sink = None
+# callable(tag: str, obj: object) -> None, installed by a verification harness
+scheduler = None
+
+
+def emit(event, **fields):
+    if ENABLED and sink is not None:
+        fields["event"] = event
+        sink(fields)
+
+
+def yield_point(tag, obj):
+    if ENABLED and scheduler is not None:
+        scheduler(tag, obj)
